@@ -123,6 +123,7 @@ type builderInfo struct {
 	Appends  int                 // number of append-to-container stores
 	Returns  bool
 	StoresEx []string // stores into pre-existing memory other than the container slot
+	appendSites []*ssa.Store
 	Obj      *ssa.Alloc
 }
 
@@ -177,8 +178,18 @@ func (c *Ctx) builderTable(fn *ssa.Function) *builderInfo {
 				continue
 			}
 			if paramIndex(fn, st.Addr) == 0 {
-				// *container = append(*container, obj)
-				bi.Appends++
+				// *container = append(*container, obj); several sites on mutually exclusive paths count once
+				// (an early `append; return` for the simple case): no site can be followed by another
+				exclusive := len(bi.appendSites) > 0
+				for _, o := range bi.appendSites {
+					if o.Block() == st.Block() || c.blockReaches(o.Block(), st.Block()) || c.blockReaches(st.Block(), o.Block()) {
+						exclusive = false
+					}
+				}
+				bi.appendSites = append(bi.appendSites, st)
+				if !exclusive {
+					bi.Appends++
+				}
 				if ap := isAppendCall(st.Val); ap != nil {
 					if sl, ok := ap.Call.Args[1].(*ssa.Slice); ok {
 						if arr, ok := sl.X.(*ssa.Alloc); ok {
